@@ -192,11 +192,11 @@ Section Machines.
 
   (* ---------- the Core machine computes ieval on the translated expression ---------- *)
   Lemma core_iexp : forall e, iexp e = true ->
-    forall codata cur ty st ce st', cmp codata cur e ty st = Ok (ce, st') ->
+    forall codata cur lg ty st ce st', cmp codata cur lg e ty st = Ok (ce, st') ->
     st' = st /\
     forall ie m out, exists k, creach (Arg (CProducer ce) (cenv_of ie) m) out (S k) (cafter ie e m out).
   Proof.
-    induction e using fterm_ind'; intros Hi codata cur ty0 st ce st' Hc; simpl in Hi; try discriminate;
+    induction e using fterm_ind'; intros Hi codata cur lg ty0 st ce st' Hc; simpl in Hi; try discriminate;
       rewrite cmp_unfold in Hc.
     - (* FVar *)
       destruct ty as [[|]|]; try discriminate.
@@ -213,10 +213,10 @@ Section Machines.
     - (* FOp *)
       apply andb_prop in Hi. destruct Hi as [Ha Hb].
       unfold cmp_op, mbind in Hc.
-      destruct (cmp codata cur e1 CI64 st) as [[a' st1]|?] eqn:E1; [|discriminate].
-      destruct (cmp codata cur e2 CI64 st1) as [[b' st2]|?] eqn:E2; [|discriminate].
+      destruct (cmp codata cur lg e1 CI64 st) as [[a' st1]|?] eqn:E1; [|discriminate].
+      destruct (cmp codata cur lg e2 CI64 st1) as [[b' st2]|?] eqn:E2; [|discriminate].
       unfold mret in Hc. injection Hc as Hce Hst. subst.
-      destruct (IHe1 Ha _ _ _ _ _ _ E1) as [S1 R1]. destruct (IHe2 Hb _ _ _ _ _ _ E2) as [S2 R2]. subst.
+      destruct (IHe1 Ha _ _ _ _ _ _ _ E1) as [S1 R1]. destruct (IHe2 Hb _ _ _ _ _ _ _ E2) as [S2 R2]. subst.
       split; [reflexivity|]. intros ie m out.
       destruct (R1 ie (MOpL (op_of o) b' (cenv_of ie) m) out) as [ka Hka].
       unfold cafter in *. simpl. destruct (ieval ie e1) as [x|oa] eqn:Ea.
@@ -235,7 +235,7 @@ Section Machines.
           eapply creach_trans; [exact Hka|]. eapply creach_step; [reflexivity|]. exact Hkb.
       + exists (S ka). eapply creach_step; [reflexivity|]. exact Hka.
     - (* FParen *)
-      exact (IHe Hi _ _ _ _ _ _ Hc).
+      exact (IHe Hi _ _ _ _ _ _ _ Hc).
   Qed.
 
   (* ---------- statements ---------- *)
@@ -258,10 +258,10 @@ Section Machines.
 
   (* translation of an expression in statement position: a cut against the continuation *)
   Lemma wc_iexp : forall e, iexp e = true ->
-    forall codata cur cont st sr st', wc codata cur e cont st = Ok (sr, st') ->
-    exists ce, (forall ty, cmp codata cur e ty st = Ok (ce, st')) /\ sr = CCut ce CI64 cont.
+    forall codata cur lg cont st sr st', wc codata cur lg e cont st = Ok (sr, st') ->
+    exists ce, (forall ty, cmp codata cur lg e ty st = Ok (ce, st')) /\ sr = CCut ce CI64 cont.
   Proof.
-    induction e using fterm_ind'; intros Hi codata cur cont st sr st' Hw; simpl in Hi; try discriminate;
+    induction e using fterm_ind'; intros Hi codata cur lg cont st sr st' Hw; simpl in Hi; try discriminate;
       rewrite wc_unfold in Hw.
     - destruct ty as [[|]|]; try discriminate.
       unfold wc_var, mbind, mlift, mret in Hw. simpl in Hw. injection Hw as Hs Hst. subst.
@@ -269,16 +269,16 @@ Section Machines.
     - unfold wc_lit, mret in Hw. injection Hw as Hs Hst. subst.
       eexists. split; [|reflexivity]. intros ty. rewrite cmp_unfold. reflexivity.
     - unfold wc_op in Hw. unfold mbind at 1 in Hw.
-      destruct (cmp_op (cmp codata cur e1 CI64) o (cmp codata cur e2 CI64) st) as [[pr st1]|?] eqn:E; [|discriminate].
+      destruct (cmp_op (cmp codata cur lg e1 CI64) o (cmp codata cur lg e2 CI64) st) as [[pr st1]|?] eqn:E; [|discriminate].
       unfold mret in Hw. injection Hw as Hs Hst. subst.
       exists pr. split; [|reflexivity]. intros ty. rewrite cmp_unfold. exact E.
-    - destruct (IHe Hi _ _ _ _ _ _ Hw) as [ce [Hc Hs]]. exists ce. split; [|exact Hs].
+    - destruct (IHe Hi _ _ _ _ _ _ _ Hw) as [ce [Hc Hs]]. exists ce. split; [|exact Hs].
       intros ty. rewrite cmp_unfold. apply Hc.
   Qed.
 
   (* running that cut against a mu~ consumer: the value is bound to the mu~ variable *)
   Lemma run_cut_iexp : forall e, iexp e = true ->
-    forall codata cur st ce st', (forall ty, cmp codata cur e ty st = Ok (ce, st')) ->
+    forall codata cur lg st ce st', (forall ty, cmp codata cur lg e ty st = Ok (ce, st')) ->
     forall c xk sk tyk ie out, exists k,
       creach (Run (CCut ce CI64 (CMu c xk sk tyk)) (cenv_of ie)) out (S k)
         (fun n => match ieval ie e with
@@ -286,7 +286,7 @@ Section Machines.
                   | IHalt o => finish out o
                   end).
   Proof.
-    induction e using fterm_ind'; intros Hi codata cur st ce st' Hc c xk sk tyk ie out; simpl in Hi; try discriminate.
+    induction e using fterm_ind'; intros Hi codata cur lg st ce st' Hc c xk sk tyk ie out; simpl in Hi; try discriminate.
     - (* FVar *)
       destruct ty as [[|]|]; try discriminate.
       specialize (Hc CI64). rewrite cmp_unfold in Hc.
@@ -301,11 +301,11 @@ Section Machines.
     - (* FOp: through core_iexp with the machine continuation MCutK *)
       pose proof (Hc CI64) as Hc1.
       assert (Hio : iexp (FOp e1 o e2) = true) by exact Hi.
-      destruct (core_iexp _ Hio _ _ _ _ _ _ Hc1) as [_ R].
+      destruct (core_iexp _ Hio _ _ _ _ _ _ _ Hc1) as [_ R].
       destruct (R ie (MCutK (CMu c xk sk tyk) (cenv_of ie)) out) as [k Hk].
       rewrite cmp_unfold in Hc1. unfold cmp_op, mbind in Hc1.
-      destruct (cmp codata cur e1 CI64 st) as [[a' st1]|?]; [|discriminate].
-      destruct (cmp codata cur e2 CI64 st1) as [[b' st2]|?]; [|discriminate].
+      destruct (cmp codata cur lg e1 CI64 st) as [[a' st1]|?]; [|discriminate].
+      destruct (cmp codata cur lg e2 CI64 st1) as [[b' st2]|?]; [|discriminate].
       unfold mret in Hc1. injection Hc1 as Hce Hst. subst ce.
       exists (k + 1)%nat. intros n.
       (* the first step of the cut and of the argument evaluation lead to the same configuration *)
@@ -318,20 +318,20 @@ Section Machines.
       unfold cafter. destruct (ieval ie (FOp e1 o e2)) as [z|oh]; [|reflexivity].
       apply crun_next. reflexivity.
     - (* FParen *)
-      apply (IHe Hi codata cur st ce st'). intros ty. specialize (Hc ty). rewrite cmp_unfold in Hc. exact Hc.
+      apply (IHe Hi codata cur lg st ce st'). intros ty. specialize (Hc ty). rewrite cmp_unfold in Hc. exact Hc.
   Qed.
 
   Lemma iexp_stmt_sim : forall e, iexp e = true ->
-    forall codata cur c x sk tyk st s st' ie kont out,
-    wc codata cur e (CMu c x sk tyk) st = Ok (s, st') ->
+    forall codata cur lg c x sk tyk st s st' ie kont out,
+    wc codata cur lg e (CMu c x sk tyk) st = Ok (s, st') ->
     krel kont x sk ->
     forall n o, frun n p (FEval e (fenv_of ie) kont) out = o -> snd o <> OOutOfFuel ->
     exists m, crun m cp (Run s (cenv_of ie)) out = o.
   Proof.
-    intros e Hi codata cur c x sk tyk st s st' ie kont out Hw Hk.
-    destruct (wc_iexp _ Hi _ _ _ _ _ _ Hw) as [ce [Hc Hs]]. subst s.
+    intros e Hi codata cur lg c x sk tyk st s st' ie kont out Hw Hk.
+    destruct (wc_iexp _ Hi _ _ _ _ _ _ _ Hw) as [ce [Hc Hs]]. subst s.
     destruct (fun_iexp _ Hi ie kont out) as [kf Hf].
-    destruct (run_cut_iexp _ Hi _ _ _ _ _ Hc c x sk tyk ie out) as [kc Hcr].
+    destruct (run_cut_iexp _ Hi _ _ _ _ _ _ Hc c x sk tyk ie out) as [kc Hcr].
     eapply sim_compose; [exact Hf | exact Hcr |].
     intros n o Hr Hne. unfold fafter in Hr. destruct (ieval ie e) as [z|oh].
     - apply (Hk _ _ _ _ _ Hr Hne).
@@ -355,15 +355,15 @@ Section Machines.
   Qed.
 
   Lemma islf_sim : forall t, islf t = true ->
-    forall codata cur c xk sk tyk st sr st' ie kont out,
+    forall codata cur lg c xk sk tyk st sr st' ie kont out,
     cont_is_small (CMu c xk sk tyk) = true ->
-    wc codata cur t (CMu c xk sk tyk) st = Ok (sr, st') ->
+    wc codata cur lg t (CMu c xk sk tyk) st = Ok (sr, st') ->
     krel kont xk sk ->
     forall n o, frun n p (FEval t (fenv_of ie) kont) out = o -> snd o <> OOutOfFuel ->
     exists m, crun m cp (Run sr (cenv_of ie)) out = o.
   Proof.
     induction t using fterm_ind';
-      intros Hi codata cur c xk sk tyk st sr st' ie kont out Hsmall Hw Hk; simpl in Hi; try discriminate.
+      intros Hi codata cur lg c xk sk tyk st sr st' ie kont out Hsmall Hw Hk; simpl in Hi; try discriminate.
     - (* FVar *) eapply iexp_stmt_sim; eauto.
     - (* FLit *) eapply iexp_stmt_sim; eauto.
     - (* FOp *) eapply iexp_stmt_sim; eauto.
@@ -373,19 +373,19 @@ Section Machines.
       rewrite wc_unfold in Hw. unfold wc_ifc in Hw. rewrite Hsmall in Hw.
       unfold mbind at 1 in Hw. unfold mret at 1 in Hw.
       unfold mbind at 1 in Hw.
-      destruct (cmp codata cur t1 CI64 st) as [[a' st1]|?] eqn:Ea; [|discriminate].
-      destruct (core_iexp _ Hia _ _ _ _ _ _ Ea) as [_ Ra].
+      destruct (cmp codata cur lg t1 CI64 st) as [[a' st1]|?] eqn:Ea; [|discriminate].
+      destruct (core_iexp _ Hia _ _ _ _ _ _ _ Ea) as [_ Ra].
       destruct (fun_iexp _ Hia ie (FkIf1 s b t2 t3 (fenv_of ie) kont) out) as [kfa Hfa].
       destruct b as [b'|].
       + (* two operands *)
         simpl in H. unfold mbind at 1 in Hw. unfold mbind at 1 in Hw.
-        destruct (cmp codata cur b' CI64 st1) as [[b'' st2]|?] eqn:Eb; [|discriminate].
+        destruct (cmp codata cur lg b' CI64 st1) as [[b'' st2]|?] eqn:Eb; [|discriminate].
         unfold mret at 1 in Hw. unfold mbind at 1 in Hw.
-        destruct (wc codata cur t2 (CMu c xk sk tyk) st2) as [[t2' st3]|?] eqn:E2; [|discriminate].
+        destruct (wc codata cur lg t2 (CMu c xk sk tyk) st2) as [[t2' st3]|?] eqn:E2; [|discriminate].
         unfold mbind at 1 in Hw.
-        destruct (wc codata cur t3 (CMu c xk sk tyk) st3) as [[t3' st4]|?] eqn:E3; [|discriminate].
+        destruct (wc codata cur lg t3 (CMu c xk sk tyk) st3) as [[t3' st4]|?] eqn:E3; [|discriminate].
         unfold mret in Hw. injection Hw as Hs Hst. subst sr.
-        destruct (core_iexp _ Hib _ _ _ _ _ _ Eb) as [_ Rb].
+        destruct (core_iexp _ Hib _ _ _ _ _ _ _ Eb) as [_ Rb].
         destruct (Ra ie (MIf1 (sort_of s) (Some b'') t2' t3' (cenv_of ie)) out) as [kca Hca].
         unfold fafter in Hfa. unfold cafter in Hca.
         destruct (ieval ie t1) as [x|oa] eqn:Eva.
@@ -414,9 +414,9 @@ Section Machines.
           -- eapply creach_step; [reflexivity|]. exact Hca.
       + (* comparison with zero *)
         unfold mbind at 1 in Hw. unfold mret at 1 in Hw. unfold mbind at 1 in Hw.
-        destruct (wc codata cur t2 (CMu c xk sk tyk) st1) as [[t2' st3]|?] eqn:E2; [|discriminate].
+        destruct (wc codata cur lg t2 (CMu c xk sk tyk) st1) as [[t2' st3]|?] eqn:E2; [|discriminate].
         unfold mbind at 1 in Hw.
-        destruct (wc codata cur t3 (CMu c xk sk tyk) st3) as [[t3' st4]|?] eqn:E3; [|discriminate].
+        destruct (wc codata cur lg t3 (CMu c xk sk tyk) st3) as [[t3' st4]|?] eqn:E3; [|discriminate].
         unfold mret in Hw. injection Hw as Hs Hst. subst sr.
         destruct (Ra ie (MIf1 (sort_of s) None t2' t3' (cenv_of ie)) out) as [kca Hca].
         unfold fafter in Hfa. unfold cafter in Hca.
@@ -436,11 +436,11 @@ Section Machines.
     - (* FPrint *)
       apply andb_prop in Hi. destruct Hi as [Hia Hin].
       rewrite wc_unfold in Hw. unfold wc_print in Hw. unfold mbind at 1 in Hw.
-      destruct (cmp codata cur t1 CI64 st) as [[a' st1]|?] eqn:Ea; [|discriminate].
+      destruct (cmp codata cur lg t1 CI64 st) as [[a' st1]|?] eqn:Ea; [|discriminate].
       unfold mbind at 1 in Hw.
-      destruct (wc codata cur t2 (CMu c xk sk tyk) st1) as [[next' st2]|?] eqn:E2; [|discriminate].
+      destruct (wc codata cur lg t2 (CMu c xk sk tyk) st1) as [[next' st2]|?] eqn:E2; [|discriminate].
       unfold mret in Hw. injection Hw as Hs Hst. subst sr.
-      destruct (core_iexp _ Hia _ _ _ _ _ _ Ea) as [_ Ra].
+      destruct (core_iexp _ Hia _ _ _ _ _ _ _ Ea) as [_ Ra].
       destruct (fun_iexp _ Hia ie (FkPrint nl t2 (fenv_of ie) kont) out) as [kfa Hfa].
       destruct (Ra ie (MPrint nl next' (cenv_of ie)) out) as [kca Hca].
       unfold fafter in Hfa. unfold cafter in Hca.
@@ -458,10 +458,10 @@ Section Machines.
       destruct vty as [|]; [|discriminate].
       apply andb_prop in Hi. destruct Hi as [Hib Hibody].
       rewrite wc_unfold in Hw. unfold wc_let in Hw. simpl in Hw. unfold mbind at 1 in Hw.
-      destruct (wc codata cur t2 (CMu c xk sk tyk) st) as [[body' st1]|?] eqn:E2; [|discriminate].
+      destruct (wc codata cur lg t2 (CMu c xk sk tyk) st) as [[body' st1]|?] eqn:E2; [|discriminate].
       destruct (fun_iexp _ Hib ie (FkLet v t2 (fenv_of ie) kont) out) as [kfa Hfa].
-      destruct (wc_iexp _ Hib _ _ _ _ _ _ Hw) as [ce [Hc Hs]]. subst sr.
-      destruct (run_cut_iexp _ Hib _ _ _ _ _ Hc CCns (new_id v) body' CI64 ie out) as [kc Hcr].
+      destruct (wc_iexp _ Hib _ _ _ _ _ _ _ Hw) as [ce [Hc Hs]]. subst sr.
+      destruct (run_cut_iexp _ Hib _ _ _ _ _ _ Hc CCns (new_id v) body' CI64 ie out) as [kc Hcr].
       unfold fafter in Hfa.
       destruct (ieval ie t1) as [z|oa] eqn:Eva.
       + eapply sim_compose.
@@ -479,9 +479,9 @@ Section Machines.
     - (* FExit *)
       destruct ty as [ety|]; [|discriminate].
       rewrite wc_unfold in Hw. unfold wc_exit in Hw. unfold mbind at 1 in Hw.
-      destruct (cmp codata cur t CI64 st) as [[a' st1]|?] eqn:Ea; [|discriminate].
+      destruct (cmp codata cur lg t CI64 st) as [[a' st1]|?] eqn:Ea; [|discriminate].
       simpl in Hw. unfold mret in Hw. injection Hw as Hs Hst. subst sr.
-      destruct (core_iexp _ Hi _ _ _ _ _ _ Ea) as [_ Ra].
+      destruct (core_iexp _ Hi _ _ _ _ _ _ _ Ea) as [_ Ra].
       destruct (fun_iexp _ Hi ie FkExit out) as [kfa Hfa].
       destruct (Ra ie MExit out) as [kca Hca].
       unfold fafter in Hfa. unfold cafter in Hca.
@@ -504,25 +504,25 @@ Section Machines.
 End Machines.
 
 (* ---------- whole programs ---------- *)
-Lemma compile_defs_prefix : forall defs codata ul front back res,
-  compile_defs defs codata ul front back = Ok res ->
+Lemma compile_defs_prefix : forall lg defs codata ul front back res,
+  compile_defs lg defs codata ul front back = Ok res ->
   (forall d, In d defs -> fdname d <> "main") ->
   exists tl, res = front ++ tl.
 Proof.
-  induction defs as [|d r IH]; intros codata ul front back res H Hnm; simpl in H.
+  intros lg. induction defs as [|d r IH]; intros codata ul front back res H Hnm; simpl in H.
   - injection H as H. subst. eexists. reflexivity.
   - destruct (String.eqb (fdname d) "main") eqn:E.
     + apply String.eqb_eq in E. exfalso. apply (Hnm d); [left; reflexivity | exact E].
-    + destruct (compile_def d codata ul) as [[g ul']|?]; simpl in H; [|discriminate].
+    + destruct (compile_def lg d codata ul) as [[g ul']|?]; simpl in H; [|discriminate].
       eapply IH; [exact H|]. intros d' Hd'. apply Hnm. right. exact Hd'.
 Qed.
 
-Lemma compile_defs_main_head : forall defs codata ul front back res d,
-  compile_defs defs codata ul front back = Ok res ->
+Lemma compile_defs_main_head : forall lg defs codata ul front back res d,
+  compile_defs lg defs codata ul front back = Ok res ->
   NoDup (map fdname defs) -> In d defs -> fdname d = "main" ->
-  exists ul1 g ul2 tl, compile_main d codata ul1 = Ok (g, ul2) /\ res = g ++ front ++ tl.
+  exists ul1 g ul2 tl, compile_main lg d codata ul1 = Ok (g, ul2) /\ res = g ++ front ++ tl.
 Proof.
-  induction defs as [|d0 r IH]; intros codata ul front back res d H Hnd Hin Hmain; simpl in H; [contradiction|].
+  intros lg. induction defs as [|d0 r IH]; intros codata ul front back res d H Hnd Hin Hmain; simpl in H; [contradiction|].
   simpl in Hnd. inversion Hnd as [|? ? Hnot Hnd']; subst.
   destruct (String.eqb (fdname d0) "main") eqn:E.
   - apply String.eqb_eq in E.
@@ -530,12 +530,12 @@ Proof.
     { destruct Hin as [Hin|Hin]; [symmetry; exact Hin|]. exfalso. apply Hnot. rewrite E, <- Hmain.
       apply in_map. exact Hin. }
     subst d0.
-    destruct (compile_main d codata ul) as [[g ul']|?] eqn:Em; simpl in H; [|discriminate].
-    destruct (compile_defs_prefix _ _ _ _ _ _ H) as [tl Htl].
+    destruct (compile_main lg d codata ul) as [[g ul']|?] eqn:Em; simpl in H; [|discriminate].
+    destruct (compile_defs_prefix _ _ _ _ _ _ _ H) as [tl Htl].
     + intros d' Hd' Hc. apply Hnot. rewrite E, <- Hc. apply in_map. exact Hd'.
     + exists ul, g, ul', tl. split; [exact Em|]. rewrite Htl, app_assoc. reflexivity.
   - destruct Hin as [Hin|Hin]; [subst d0; rewrite Hmain in E; discriminate|].
-    destruct (compile_def d0 codata ul) as [[g ul']|?]; simpl in H; [|discriminate].
+    destruct (compile_def lg d0 codata ul) as [[g ul']|?]; simpl in H; [|discriminate].
     eapply IH; eauto.
 Qed.
 
@@ -584,12 +584,12 @@ Theorem fun2core_correct_partial_lemma : forall (p : fcprog) (c : cprog) (d : fd
   exists m, run_core m c args = o.
 Proof.
   intros p c d args n o Hcomp Hnd Hfind Hfrag Hrun Hne.
-  unfold compile_prog in Hcomp.
-  destruct (compile_defs (fcpdefs p) _ _ [] []) as [defs|?] eqn:Ed; simpl in Hcomp; [|discriminate].
+  unfold compile_prog, compile_prog_gen in Hcomp.
+  destruct (compile_defs false (fcpdefs p) _ _ [] []) as [defs|?] eqn:Ed; simpl in Hcomp; [|discriminate].
   injection Hcomp as Hc. subst c.
   unfold ffind_def in Hfind. apply find_some in Hfind. destruct Hfind as [Hin Hname].
   apply String.eqb_eq in Hname.
-  destruct (compile_defs_main_head _ _ _ _ _ _ _ Ed Hnd Hin Hname) as [ul1 [g [ul2 [tl [Hm Hres]]]]].
+  destruct (compile_defs_main_head _ _ _ _ _ _ _ _ Ed Hnd Hin Hname) as [ul1 [g [ul2 [tl [Hm Hres]]]]].
   simpl in Hres. subst defs.
   unfold compile_main in Hm.
   match type of Hm with context [run_def_body ?cd ?dd ?u ?k] =>
